@@ -31,6 +31,8 @@ def run(ctx, rep):
     rep.run(RM.rule_destroy_once, ctx, rep, "H2")
     rep.run(RM.rule_unload_hook, ctx, rep, "H3")
     rep.run(RM.rule_base_handle, ctx, rep, "H4")
+    rep.run(RM.rule_base_handle_pairing, ctx, rep, "H4")
+    rep.run(RM.rule_group_by_name, ctx, rep, "H8")
     rep.run(RH.rule_handle_protocol, ctx, rep, "H5")
     rep.run(RM.rule_return_ownership, ctx, rep, "H6")
     rep.run(RF.rule_memo_key_complete, ctx, rep, "H7", packages=("gtwrap/matlab_wrapper",), min_functions=50)
